@@ -217,6 +217,21 @@ def affinity_eval(case):
             res["calls"].append(ms)
             if res.get("runaway"):
                 break
+        # the storing variant of the search, continued without restart, with and without a progress callable
+        def store_history(progress):
+            lc2 = LocalConcurrences(s1, None if same else s2, gamma=case["gamma"], tau=case["tau"], delta=case["delta"],
+                                    delta_factor=case["delta_factor"], only_triu=case["only_triu"], penalty=case["penalty"],
+                                    window=case["window"], **ekw)
+            lc2.align()
+            outp = []
+            for kk_, kwargs_ in ((1, dict(restart=True, keep=True)), (2, dict(restart=False, keep=True))):
+                if progress:
+                    kwargs_ = dict(kwargs_, tqdm=lambda it_, total=None: it_)
+                ms_ = lc2.kbest_matches_store(k=kk_, minlen=1, **kwargs_)
+                outp.append([[[int(a), int(b)] for a, b in m.path] for m in ms_])
+            return outp
+        res["store_plain"] = store_history(False)
+        res["store_progress"] = store_history(True)
         # the positivized view (marks of the matches removed) must show the matrix as it was before the searches
         res["positivized_equals_start"] = bool(np.array_equal(
             np.where(np.isneginf(np.asarray(lc.wp_slice(positivize=True), dtype=float)), -np.inf,
@@ -260,6 +275,37 @@ def glue_matrix(series, ndim, block, kw):
         out["got"][name] = len(r)
         del r
         gc.collect()
+    return out
+
+
+def glue_converted(series, kind):
+    """C distance matrix / DBA on a list of LONG series that must be converted before the C code can read them (integers,
+    every second sample of a buffer): the converted copies have to stay alive while the C code runs. Run with
+    MALLOC_PERTURB_ set, so that a released buffer is overwritten at once. Returns the results for the converted input
+    and for plain float64 copies."""
+    import gc
+    import numpy as np
+    from dtaidistance import dtw, dtw_barycenter
+    plain = [np.array(s, dtype=np.double) for s in series]
+    if kind == "int":
+        data = [np.array(s, dtype=np.int64) for s in series]
+    else:
+        data = []
+        for s in series:
+            big = np.full(2 * len(s), 123.0)
+            big[::2] = s
+            data.append(big[::2])
+    out = {}
+    for name, fn in (("distance_matrix(use_c)", lambda d: list(dtw.distance_matrix(d, use_c=True, compact=True))),
+                     ("distance_matrix_fast", lambda d: list(dtw.distance_matrix_fast(d, compact=True))),
+                     ("dba_loop(use_c)", lambda d: np.asarray(dtw_barycenter.dba_loop(d, None, max_it=2, thr=None,
+                                                                                     use_c=True)).tolist())):
+        junk = [np.ones(len(series[0])) * k for k in range(8)]      # allocator traffic between the calls
+        a = fn(data)
+        del junk
+        gc.collect()
+        b = fn(plain)
+        out[name] = [a, b]
     return out
 
 
